@@ -9,7 +9,15 @@ vs the Lean model (Drv/Save) fed with the texts a reference computes through the
 (validate/dump/dump_using_format): outcome class + final directory content must agree;
 (3) property oracle on the real code, independent of the model: (a) without overwrite no existing file
 changes, (b) a failing save leaves the directory snapshot unchanged (open finding: multi-file mode, failure
-after the first sub-file write), (c) on success parse_path(saved) equals the configuration.
+after the first sub-file write), (c) on success parse_path(saved) equals the configuration, (d) save leaves the
+caller's configuration object and the working directory alone.
+Session 2: targets are handed to the model as SPELLED (symbolic links as target and as sub-file names go into
+env.links, the model resolves them: `saveR`); the path argument is also given relative / through `..` / as
+pathlib.Path / as a jsonargparse Path object; skip_validation, deprecated skip_check and skip_none are passed;
+sub-files are also loaded from sub-directories; the model's `writtenCount` (theorem C18_failure_exact) must equal
+the number of sub-files the oracle lets a failing run leave behind; the fsspec branch runs against an in-process
+memory:// file system and the model `saveFsspec` (probe of Path(mode="sw"), no check_overwrite, open before
+dump: two open findings).
 """
 from __future__ import annotations
 
@@ -19,8 +27,10 @@ import enum
 import hashlib
 import json
 import os
+import pathlib
 import shutil
 import tempfile
+import warnings
 from typing import Any, Optional
 
 from ..lib.common import Ctx, MachineryError, repo_python_path
@@ -28,21 +38,38 @@ from ..lib.common import Ctx, MachineryError, repo_python_path
 MANIFEST = {
     "engine": "E7-Save",
     "technique": "Lean 4 proof over an effect-order model of ArgumentParser.save with universally quantified fault vectors + "
-                 "effect order regenerated from the AST + differential correspondence with fault injection in a temp directory",
-    "text": "Theorems in lean/Jap/Props/C18.lean prove for all file systems, targets, sub-file lists and all fault vectors (validation, "
-            "each serialisation, each open, each write) that without overwrite no existing file changes, that a failing single-file save "
-            "(and a multi-file save failing no later than its first write) leaves the file system unchanged, and that a successful save "
-            "leaves exactly the dump text in the target and the serialised text in every sub-file; the full multi-file all-or-nothing "
-            "statement is refuted on a witness (open finding). The model is tied to the code by regenerating the order of effect steps "
-            "from the AST of save() (compared with the model's order by `decide`) and by running the real save with injected failures "
-            "against the model.",
+                 "file-system model with an explicit resolve function for path aliasing + model of the fsspec branch + effect order, guards, "
+                 "file expressions and the normalised text of every statement of save() regenerated from the AST + differential correspondence "
+                 "with fault injection in a temp directory and on an in-process memory:// file system",
+    "text": "Theorems in lean/Jap/Props/C18.lean prove for all file systems, targets, sub-file lists of any length and all fault vectors "
+            "(validation, each serialisation, each open, each write) that without overwrite no existing file changes, that every changed path "
+            "is a declared target, that a failing single-file save (and a multi-file save failing no later than its first write) leaves the "
+            "file system unchanged, and that a successful save leaves exactly the dump text in the target and the serialised text in every "
+            "sub-file. The full multi-file all-or-nothing statement is refuted on a witness (open finding) and the failure is characterised "
+            "EXACTLY: a failing save leaves precisely the result of the first writtenCount sub-file steps (C18_failure_exact), writtenCount=0 "
+            "iff the hypothesis of the partial theorem holds (C18_failure_clean_iff), and outside it the first sub-file really was written "
+            "(C18_partial_is_sharp). Path aliasing is decided over a file-system model with an explicit resolve function (saveR): no-overwrite, "
+            "frame and all-or-nothing hold through symbolic links / relative spellings / two names for one file; colliding names, a sub-file "
+            "named like the target, dangling links and uncreatable resolved locations are decided by theorems. The fsspec branch is modelled "
+            "(saveFsspec, including the open-for-writing probe of Path(mode='sw')): both halves of the property are refuted there by witnesses "
+            "(two open findings), with frame, success-writes, a partial theorem and the exact statement that every failure past the probe leaves "
+            "the target empty. The model is tied to the code by regenerating from the AST the order of effect steps of both local modes, of "
+            "save_paths and of the fsspec block with its guards, the probe of Path, the file expression of every check_overwrite/open pair, "
+            "the signature and the normalised text of EVERY statement of save (compared with the text the model was transcribed from), and by "
+            "running the real save (local directory and memory:// file system) with injected failures against the model.",
     "level_note": "Trusted: Lean kernel; axioms propext/Quot.sound/Classical.choice only; the AST extractor; the correspondence harness and its "
-                  "reference (validate/dump/dump_using_format decide the fault vector handed to the model). OS-level partial writes after a "
-                  "successful open, fsspec/URL targets, symlinks and permission changes during the save are outside the model.",
+                  "reference (validate/dump/dump_using_format decide the fault vector handed to the model; skip_validation/skip_check/skip_none/"
+                  "format are handed through to it, so the flags are exercised but their effect on the TEXT is an input of the model). "
+                  "OS-level partial writes after a successful open, close() failing, remote fsspec back-ends other than memory:// (the model "
+                  "assumes what memory:// does: opening for writing creates/truncates), http(s) URL targets, branch= (subcommands), FIFO targets, "
+                  "chains of symbolic links (the harness hands the model fully resolved destinations) and other processes changing the directory "
+                  "or permissions during the save are outside the model.",
 }
 
 FINDING_PARTIAL = "C18-multifile-partial"
 FINDING_COLLISION = "C18-basename-collision"
+FINDING_FS_OVERWRITE = "C18-fsspec-silent-overwrite"
+FINDING_FS_TRUNC = "C18-fsspec-truncates-on-failure"
 NOBODY = 65534
 VALID_FORMATS = ("parser_mode", "yaml", "json", "json_indented")
 
@@ -282,6 +309,8 @@ def classify_exc(ex):
         return "io"
     if isinstance(ex, PathError):
         return "path"
+    if isinstance(ex, NotImplementedError):
+        return "notImplemented"
     mod = type(ex).__module__ or ""
     if mod.startswith("yaml") and type(ex).__name__ == "RepresenterError":
         return "unserialisable"
@@ -318,6 +347,26 @@ def canon_cfg(v):
         except OSError:
             content = None
         return {"path": os.path.basename(str(v)), "content": content}
+    if v is None or isinstance(v, (bool, int, str)):
+        return v
+    return {"repr": repr(v)}
+
+
+def canon_meta(v):
+    """the caller's configuration object INCLUDING its meta entries (__path__, __orig__): save() must leave it alone"""
+    from jsonargparse import Namespace
+    from jsonargparse._util import Path
+
+    if isinstance(v, Namespace):
+        return {"ns": {k: canon_meta(x) for k, x in sorted(vars(v).items())}}
+    if isinstance(v, dict):
+        return {"dict": {str(k): canon_meta(x) for k, x in sorted(v.items(), key=lambda kv: str(kv[0]))}}
+    if isinstance(v, (list, tuple)):
+        return [canon_meta(x) for x in v]
+    if isinstance(v, enum.Enum):
+        return {"enum": v.name}
+    if isinstance(v, Path):
+        return {"path": str(v), "abs": v.absolute, "mode": v.mode}
     if v is None or isinstance(v, (bool, int, str)):
         return v
     return {"repr": repr(v)}
@@ -398,7 +447,18 @@ def save_kwargs(sc):
         kw["multifile"] = sc["multifile"]
     if sc.get("format") is not None:
         kw["format"] = sc["format"]
+    if sc.get("skip_validation") == "skip_check":
+        kw["skip_check"] = True            # deprecated spelling of skip_validation=True
+    elif sc.get("skip_validation") is not None:
+        kw["skip_validation"] = sc["skip_validation"]
+    if sc.get("skip_none") is not None:
+        kw["skip_none"] = sc["skip_none"]
     return kw
+
+
+def dump_flags(sc):
+    """(skip_validation, skip_none) as save() hands them to dump()"""
+    return bool(sc.get("skip_validation")), sc.get("skip_none") is not False
 
 
 def setup_dirs(sc, case_dir):
@@ -428,8 +488,10 @@ def reference_plan(parser, cfg, sc, case_dir, out_dir):
     fmt = sc.get("format") or "parser_mode"
     fmt_ok = fmt in VALID_FORMATS
     multi = sc.get("multifile") is not False
-    # a target that is a symbolic link stands for the file it resolves to (open/isfile/realpath(path/..) all follow it)
-    inp = {"path": sc.get("links", {}).get(sc["target"], sc["target"]), "overwrite": sc.get("overwrite"), "multifile": sc.get("multifile"), "format_ok": fmt_ok,
+    # targets are handed to the model AS SPELLED; symbolic links go into env.links and the model resolves them
+    # (open / isfile / realpath(path/..) all follow the link)
+    skipv, skip_none = dump_flags(sc)
+    inp = {"path": sc["target"], "overwrite": sc.get("overwrite"), "multifile": sc.get("multifile"), "format_ok": fmt_ok,
            "validate_ok": True, "subs": [], "wr": {"open": True, "write": True}}
     extra = {}
     if not fmt_ok:
@@ -442,16 +504,17 @@ def reference_plan(parser, cfg, sc, case_dir, out_dir):
         except Exception as ex:  # noqa: BLE001 - the class is the observation
             return {"fail": classify_exc(ex)}
 
-    try:
-        parser.validate(strip_meta(cfg.clone()))
-        valid = True
-    except TypeError:
-        valid = False
+    valid = True
+    if not skipv:
+        try:
+            parser.validate(strip_meta(cfg.clone()))
+        except TypeError:
+            valid = False
     if not multi:
         if not valid:
             inp["dump"] = {"fail": "invalid"}
         else:
-            inp["dump"] = outcome(lambda: parser.dump(cfg.clone(), format=fmt))
+            inp["dump"] = outcome(lambda: parser.dump(cfg.clone(), format=fmt, skip_none=skip_none, skip_validation=skipv))
         return inp, extra
     inp["validate_ok"] = valid
     c = cfg.clone()
@@ -480,18 +543,29 @@ def reference_plan(parser, cfg, sc, case_dir, out_dir):
                 extra[os.path.relpath(src_real, os.path.realpath(case_dir))] = src
             inp["subs"].append({"path": name, "kind": "content", "key": key, "src": src, "read_ok": True, "wr": {"open": True, "write": True}})
             c[key] = name
-    inp["dump"] = outcome(lambda: parser.dump(c, format=fmt, skip_validation=True))
+    inp["dump"] = outcome(lambda: parser.dump(c, format=fmt, skip_none=skip_none, skip_validation=True))
     return inp, extra
 
 
-def add_env(inp, before_out, ro=False):
+def resolved(mi, p):
+    """the file a target spelling stands for (the harness-side twin of Jap.Save.Env.resolve)"""
+    for k, v in mi.get("env", {}).get("links", []):
+        if k == p:
+            return v
+    return p
+
+
+def add_env(inp, before_out, ro=False, links=None):
     _, dirs = before_out
     top_dirs = sorted(d for d in dirs if os.sep not in d)
+    inp["env"] = {"links": sorted([k, v] for k, v in (links or {}).items())}
+    names = [resolved(inp, p) for p in [inp["path"]] + [s["path"] for s in inp["subs"]]]
     noparent = []
-    for p in [inp["path"]] + [s["path"] for s in inp["subs"]]:
+    for p in names:
         if os.sep in p and os.path.dirname(p) not in dirs:
             noparent.append(p)
-    inp["env"] = {"noparent": noparent, "ro": [inp["path"]] + [s["path"] for s in inp["subs"]] if ro else [], "nonfile": top_dirs}
+    # the facts are about RESOLVED names
+    inp["env"].update({"noparent": noparent, "ro": names if ro else [], "nonfile": top_dirs})
 
 
 def add_write_fault(inp, fault):
@@ -548,7 +622,7 @@ def prepare(scn, fault, ro=False):
     out_prefix = os.path.relpath(scn.out_dir, scn.case_dir)
     model_in, extra = reference_plan(scn.parser2, cfg2, sc, scn.case_dir, scn.out_dir)
     model_in["fs"] = fs_view(before, out_prefix, extra)
-    add_env(model_in, sub_snapshot(before, out_prefix), ro)
+    add_env(model_in, sub_snapshot(before, out_prefix), ro, sc.get("links"))
     add_write_fault(model_in, fault)
     return {"sc": sc, "fault": fault, "case_dir": scn.case_dir, "out_dir": scn.out_dir, "parser": scn.parser, "parser3": scn.parser3, "cfg": cfg,
             "before": before, "model_in": model_in, "extra": extra, "out_prefix": out_prefix,
@@ -558,17 +632,45 @@ def prepare(scn, fault, ro=False):
 def execute(st):
     sc, fault = st["sc"], st["fault"]
     target = os.path.join(st["out_dir"], sc["target"])
+    spelling = sc.get("spelling")
+    cwd0 = os.getcwd()
+    run_cwd = cwd0
     if sc.get("uri"):
         target = "file://" + target       # file:// spelling of a LOCAL path: must behave exactly like the plain path
+    elif spelling == "rel":
+        run_cwd = st["case_dir"]          # relative to a working directory that is NOT the target's directory
+        target = os.path.relpath(target, run_cwd)
+    elif spelling == "dotrel":
+        run_cwd = st["out_dir"]
+        target = "./" + sc["target"]
+    elif spelling == "updown":
+        target = os.path.join(st["out_dir"], "..", os.path.basename(st["out_dir"]), sc["target"])   # out/../out/main.yaml
+    elif spelling == "pathlib":
+        target = pathlib.Path(target)
     exc = None
+    cwd_after = None
     patch_kind = fault["kind"] if fault.get("kind") in ("open", "write") else "none"
+    cfg_before = canon_meta(st["cfg"])
     with OpenPatch(st["out_dir"], patch_kind, fault.get("k", -1)) as op:
         try:
-            st["parser"].save(st["cfg"], target, **save_kwargs(sc))
+            os.chdir(run_cwd)
+            if spelling == "japath":
+                from jsonargparse._util import Path as JPath, PathError
+
+                try:
+                    target = JPath(target, mode="fc")      # a path object the caller has already checked
+                except PathError:
+                    pass                                    # the caller cannot build the object: the plain string is passed
+            with warnings.catch_warnings():
+                warnings.simplefilter("ignore")
+                st["parser"].save(st["cfg"], target, **save_kwargs(sc))
             outcome = "ok"
         except Exception as ex:  # noqa: BLE001 - the class is the observation
             outcome = classify_exc(ex)
             exc = "%s: %s" % (type(ex).__name__, str(ex)[:160])
+        finally:
+            cwd_after = os.getcwd()
+            os.chdir(cwd0)
     after = snapshot(st["case_dir"])
     reparsed = None
     reparse_err = None
@@ -584,7 +686,9 @@ def execute(st):
     return {"outcome": outcome, "exc": exc, "before": st["before"], "after": after,
             "before_out": sub_snapshot(st["before"], st["out_prefix"]), "after_out": sub_snapshot(after, st["out_prefix"]),
             "model_in": st["model_in"], "real_fs": real_fs, "expected_cfg": st["expected_cfg"], "reparsed": reparsed,
-            "reparse_err": reparse_err, "writes": op.writes, "out_prefix": st["out_prefix"]}
+            "reparse_err": reparse_err, "writes": op.writes, "out_prefix": st["out_prefix"],
+            "cwd_moved": os.path.realpath(cwd_after) != os.path.realpath(run_cwd),
+            "cfg_mutated": canon_meta(st["cfg"]) != cfg_before}
 
 
 _LAST = {"key": None, "scn": None}
@@ -622,7 +726,7 @@ def run_readonly_cases(cases, root):
 
 # ---------------------------------------------------------------- the oracle (real code only)
 def has_collision(model_in):
-    names = [s["path"] for s in model_in["subs"]] + [os.path.basename(model_in["path"])]
+    names = [resolved(model_in, s["path"]) for s in model_in["subs"]] + [os.path.basename(resolved(model_in, model_in["path"]))]
     return len(set(names)) != len(names)
 
 
@@ -644,10 +748,16 @@ def judge(res, sc, fault):
     outside = [n for n in diff if not (n.startswith(pref + os.sep) or n.startswith("dir:" + pref + os.sep))]
     if outside:
         out.append((None, "save changed files outside the target directory: %s" % outside))
+    if res.get("cwd_moved"):
+        out.append((None, "save left the working directory changed"))
+    if res.get("cfg_mutated"):
+        # the object the caller keeps is what "the configuration" of the round trip refers to: a save that rewrites it
+        # (e.g. replaces nested sub-configs by file names) makes the NEXT save of the same object lose those sub-files
+        out.append((None, "save modified the caller's configuration object (outcome %s)" % res["outcome"]))
     # (b) failure -> nothing changed
     if res["outcome"] != "ok":
         if diff:
-            subs = [s["path"] for s in mi["subs"]] if multi else []
+            subs = [resolved(mi, s["path"]) for s in mi["subs"]] if multi else []
             # the open finding allows exactly the sub-files written BEFORE the failing step to remain
             allowed = set()
             fail_at = failing_slot(mi)
@@ -656,7 +766,7 @@ def judge(res, sc, fault):
             io_file = None
             if res["outcome"] == "io":
                 # OS failing in the middle of a write, after open succeeded: outside the property, that one file is truncated
-                slots = subs + [os.path.basename(mi["path"])]
+                slots = subs + [os.path.basename(resolved(mi, mi["path"]))]
                 io_file = slots[fault["k"]] if fault.get("kind") == "write" and fault["k"] < len(slots) else None
             rest = [n for n in diff_out if n not in allowed and n != io_file]
             if rest:
@@ -666,7 +776,9 @@ def judge(res, sc, fault):
                             % (res["outcome"], fail_at, sorted(n for n in diff_out if n != io_file))))
     else:
         # (c) round trip (a Path whose content is saved counts with its content)
-        if res["reparse_err"] is not None or res["reparsed"] != res["expected_cfg"]:
+        if sc.get("skip_validation") and fault.get("kind") == "invalid":
+            pass        # validation was switched off and the configuration IS invalid: nothing to re-parse
+        elif res["reparse_err"] is not None or res["reparsed"] != res["expected_cfg"]:
             fid = None
             if multi and has_collision(mi):
                 fid = FINDING_COLLISION
@@ -682,13 +794,15 @@ def failing_slot(mi):
     existing = {n for n, _ in mi["fs"]}
     nonfile = set(mi["env"]["nonfile"])
     ow = mi.get("overwrite") is True
-    if mi["path"] in nonfile or mi["path"] in mi["env"]["noparent"] or mi["path"] in mi["env"]["ro"] or (not ow and mi["path"] in existing):
+    main = resolved(mi, mi["path"])
+    if main in nonfile or main in mi["env"]["noparent"] or main in mi["env"]["ro"] or (not ow and main in existing):
         return None
     for i, s in enumerate(mi["subs"]):
-        bad_text = "fail" in s.get("text", {}) or (s["kind"] == "content" and s["src"] not in existing)
-        if s["path"] in nonfile or (not ow and s["path"] in existing) or bad_text or not s["wr"]["open"] or not s["wr"]["write"]:
+        sp = resolved(mi, s["path"])
+        bad_text = "fail" in s.get("text", {}) or (s["kind"] == "content" and resolved(mi, s["src"]) not in existing)
+        if sp in nonfile or sp in mi["env"]["noparent"] or (not ow and sp in existing) or bad_text or not s["wr"]["open"] or not s["wr"]["write"]:
             return i
-        existing.add(s["path"])
+        existing.add(sp)
     if "fail" in mi["dump"] or not mi["wr"]["open"] or not mi["wr"]["write"]:
         return len(mi["subs"])
     return None
@@ -728,6 +842,9 @@ def gen_scenario(rng):
     subs = []
     for i in range(n_subs):
         s = {"name": "s%d" % (i + 1), "file": files[i] if rng.random() < 0.8 else None}
+        if s["file"] and rng.random() < 0.3:
+            # loaded from a sub-directory of the input directory; saved under its basename next to the target
+            s["file"] = rng.choice(["sub/", "cfgs/", "a/b/"]) + s["file"]
         if rng.random() < 0.3:
             s["inner"] = {"file": "inner%d.yaml" % (i + 1) if rng.random() < 0.7 else None}
         subs.append(s)
@@ -796,6 +913,28 @@ def gen_scenario(rng):
             pre.pop(n, None)
     if sc["pathcontent"] and sc["pathcontent"]["dir"] == "out":
         pre.pop(sc["pathcontent"]["file"], None)
+    # --- how the target is spelled: absolute string (default), relative to a working directory elsewhere / to its own
+    #     directory, through `..`, a pathlib.Path, a jsonargparse Path(mode="fc") object
+    sc["spelling"] = None
+    if not sc["uri"] and rng.random() < 0.4:
+        sc["spelling"] = rng.choice(["rel", "dotrel", "updown", "pathlib", "japath"])
+    # --- flags save() hands through to dump() / that switch validation off (also by the deprecated keyword)
+    sc["skip_validation"] = rng.choice([None, None, None, None, False, True, "skip_check"])
+    sc["skip_none"] = rng.choice([None, None, None, False])
+    # --- a sub-file NAME in the target directory that is a symbolic link: to a file of its own (existing or dangling),
+    #     to the name of another sub-file, or to the target
+    sub_names = [os.path.basename(s["file"]) for s in subs if s.get("file")] + (["d.yaml"] if sc["dict"] else [])
+    if sub_names and sc["multifile"] is not False and not sc["same_dir"] and rng.random() < 0.15:
+        name = rng.choice(sub_names)
+        if name not in sc["predirs"] and name not in sc["links"]:
+            cands = ["linked.yaml"] * 3 + [n for n in sub_names if n != name and n not in sc["predirs"]][:1]
+            if "main.yaml" not in sc["links"]:
+                cands.append("main.yaml")
+            dest = rng.choice(cands)
+            sc["links"][name] = dest
+            pre.pop(name, None)
+            if dest == "linked.yaml" and rng.random() < 0.5:
+                pre["linked.yaml"] = gen_content(rng)
     return sc
 
 
@@ -839,6 +978,232 @@ def count_writes(sc):
     return n
 
 
+
+# ---------------------------------------------------------------- the fsspec branch (memory:// file system, in-process)
+_FS_COUNTER = [0]
+FS_TARGET = "main.yaml"
+
+
+def fsspec_available():
+    try:
+        from jsonargparse._optionals import fsspec_support
+
+        if not fsspec_support:
+            return False
+        import fsspec
+
+        fsspec.filesystem("memory")
+        return True
+    except Exception:  # noqa: BLE001
+        return False
+
+
+def gen_fsspec_scenario(rng):
+    sc = {"fsspec": True, "subs": [], "dict": None, "schema": None, "jsonnet": None, "pathcontent": None}
+    vals = {}
+    for k, kind in TOP_LEAVES:
+        if rng.random() < 0.6:
+            v = gen_value(rng, kind)
+            if v is not None or kind != "enum":
+                vals[k] = v
+    sc["values"] = vals
+    sc["format"] = rng.choice([None, None, "yaml", "json", "json_indented", "parser_mode", "bogus"])
+    sc["overwrite"] = rng.choice([None, False, True])
+    sc["multifile"] = rng.choice([False, False, False, None, True])
+    sc["skip_validation"] = rng.choice([None, None, None, True])
+    sc["skip_none"] = rng.choice([None, None, False])
+    sc["target"] = FS_TARGET
+    sc["pre"] = {n: gen_content(rng) for n in (FS_TARGET, "other.yaml") if rng.random() < 0.7}
+    return sc
+
+
+def fsspec_faults(sc):
+    out = [{"kind": "none"}, {"kind": "invalid", "key": "top"}, {"kind": "invalid", "key": "name", "as": "list"},
+           {"kind": "unser", "key": "any"}, {"kind": "enum", "key": "col"},
+           {"kind": "open", "k": 0}, {"kind": "open", "k": 1}, {"kind": "write", "k": 1}]
+    return out
+
+
+class FsspecPatch:
+    """while active, the k-th fsspec.open(<below root>, 'w') fails: k=0 is the probe inside Path(mode='sw') (it fails the way
+    a missing bucket does: FileNotFoundError), k=1 is save's own open (OSError); kind 'write': the handle's write fails
+    after the file was really opened"""
+
+    def __init__(self, root, kind, k):
+        self.root, self.kind, self.k, self.n = root, kind, k, 0
+
+    def __enter__(self):
+        import fsspec
+
+        self.mod = fsspec
+        real = self.real = fsspec.open
+        me = self
+
+        def patched(urlpath, mode="rb", *a, **kw):
+            if not (isinstance(urlpath, str) and urlpath.startswith(me.root) and "w" in mode):
+                return real(urlpath, mode, *a, **kw)
+            idx = me.n
+            me.n += 1
+            if me.kind == "open" and idx == me.k:
+                if idx == 0:
+                    raise FileNotFoundError("injected: probe fails")
+                raise InjectedOpenError("injected: open fails")
+            of = real(urlpath, mode, *a, **kw)
+            if me.kind == "write" and idx == me.k:
+                class Failing:
+                    def __enter__(s):
+                        of.__enter__()
+                        return s
+
+                    def __exit__(s, *e):
+                        return of.__exit__(*e)
+
+                    def write(s, data):
+                        raise InjectedWriteError("injected: write fails")
+
+                return Failing()
+            return of
+
+        fsspec.open = patched
+        return self
+
+    def __exit__(self, *e):
+        self.mod.open = self.real
+        return False
+
+
+def mem_snapshot(root):
+    import fsspec
+
+    m = fsspec.filesystem("memory")
+    base = "/" + root[len("memory://"):].strip("/")
+    out = {}
+    if m.exists(base):
+        for pth in m.find(base):
+            out[pth[len(base) + 1:]] = m.cat(pth)
+    return out
+
+
+def run_fsspec_case(sc, fault):
+    """one save() to a memory:// target: real code + the input of Jap.Save.saveFsspec"""
+    import fsspec
+    from jsonargparse import strip_meta
+
+    _FS_COUNTER[0] += 1
+    root = "memory://c18-%d-%d/" % (os.getpid(), _FS_COUNTER[0])
+    base = "/" + root[len("memory://"):].strip("/")
+    m = fsspec.filesystem("memory")
+    try:
+        for name, content in sc.get("pre", {}).items():
+            with fsspec.open(root + name, "wb") as f:
+                f.write(content.encode("utf-8"))
+        parser, parser2, parser3 = build_parser(sc), build_parser(sc), build_parser(sc)
+        main = {k: plain(v) for k, v in sc.get("values", {}).items()}
+        cfg, cfg2 = parser.parse_object(main), parser2.parse_object(main)
+        apply_fault(cfg, fault)
+        apply_fault(cfg2, fault)
+        expected = canon_cfg(strip_meta(copy.deepcopy(cfg)))
+        before = mem_snapshot(root)
+        fmt = sc.get("format") or "parser_mode"
+        fmt_ok = fmt in VALID_FORMATS
+        skipv, skip_none = dump_flags(sc)
+        mi = {"branch": "fsspec", "path": sc["target"], "overwrite": sc.get("overwrite"), "multifile": sc.get("multifile"),
+              "format_ok": fmt_ok, "probe_ok": not (fault.get("kind") == "open" and fault.get("k") == 0),
+              "wr": {"open": not (fault.get("kind") == "open" and fault.get("k") == 1),
+                     "write": not (fault.get("kind") == "write" and fault.get("k") == 1)},
+              "fs": sorted([n, c.decode("utf-8")] for n, c in before.items())}
+        if not fmt_ok:
+            mi["dump"] = {"fail": "format"}
+        else:
+            try:
+                mi["dump"] = {"text": parser2.dump(cfg2, format=fmt, skip_none=skip_none, skip_validation=skipv)}
+            except Exception as ex:  # noqa: BLE001 - the class is the observation
+                mi["dump"] = {"fail": classify_exc(ex)}
+        exc = None
+        patch_kind = fault["kind"] if fault.get("kind") in ("open", "write") else "none"
+        with FsspecPatch(root, patch_kind, fault.get("k", -1)):
+            try:
+                with warnings.catch_warnings():
+                    warnings.simplefilter("ignore")
+                    parser.save(cfg, root + sc["target"], **save_kwargs(sc))
+                outcome = "ok"
+            except Exception as ex:  # noqa: BLE001 - the class is the observation
+                outcome = classify_exc(ex)
+                exc = "%s: %s" % (type(ex).__name__, str(ex)[:160])
+        after = mem_snapshot(root)
+        reparsed = reparse_err = None
+        if outcome == "ok":
+            try:
+                reparsed = canon_cfg(parser3.parse_string(after[sc["target"]].decode("utf-8"), with_meta=False))
+            except Exception as ex:  # noqa: BLE001
+                reparse_err = "%s: %s" % (type(ex).__name__, str(ex)[:200])
+        return {"outcome": outcome, "exc": exc, "before": before, "after": after, "model_in": mi,
+                "real_fs": sorted([n, c.decode("utf-8", "replace")] for n, c in after.items()),
+                "expected_cfg": expected, "reparsed": reparsed, "reparse_err": reparse_err}
+    finally:
+        if m.exists(base):
+            m.rm(base, recursive=True)
+
+
+def judge_fsspec(res, sc, fault):
+    """C18 on one real run against a memory:// target; returns list of (finding-id-or-None, description)"""
+    out = []
+    before, after, t = res["before"], res["after"], sc["target"]
+    changed = sorted(n for n in set(before) | set(after) if before.get(n) != after.get(n))
+    if [n for n in changed if n != t]:
+        out.append((None, "fsspec save touched files other than the target: %s" % changed))
+    if res["outcome"] == "ok":
+        if sc.get("overwrite") is not True and t in before and t in changed:
+            out.append((FINDING_FS_OVERWRITE, "overwrite not requested, fsspec target existed: replaced, save reported success"))
+        if sc.get("skip_validation") and fault.get("kind") == "invalid":
+            pass
+        elif res["reparse_err"] is not None or res["reparsed"] != res["expected_cfg"]:
+            out.append((None, "fsspec target does not re-parse to the configuration (%s)" % (res["reparse_err"] or "values differ")))
+    elif t in changed:
+        if after.get(t) == b"" and res["outcome"] not in ("format", "path"):
+            out.append((FINDING_FS_TRUNC, "save to an fsspec target raised (%s); the target %s" %
+                        (res["outcome"], "was emptied" if t in before else "was created empty")))
+        else:
+            out.append((None, "save to an fsspec target raised (%s) and the target changed" % res["outcome"]))
+    return out
+
+
+def process_fsspec(ctx: Ctx, cases, origin):
+    results = [run_fsspec_case(sc, fault) for sc, fault in cases]
+    lines = [r["model_in"] for r in results]
+    model = None
+    try:
+        model = ctx.driver("Save", lines) if lines else []
+    except MachineryError as ex:
+        if ctx.lean_ok:
+            raise
+        ctx.tie_break("correspondence E7 (fsspec branch) not runnable (model does not build)", str(ex))
+    dis = 0
+    for idx, ((sc, fault), res) in enumerate(zip(cases, results)):
+        ctx.count()
+        ctx.hist("fsspec_outcome", res["outcome"])
+        ctx.hist("fsspec_mode", {None: "multi(default)", True: "multi", False: "single"}[sc.get("multifile")])
+        ctx.hist("fsspec_overwrite", {None: "default", True: "on", False: "off"}[sc.get("overwrite")])
+        ctx.hist("fsspec_fault", fault["kind"] + (str(fault["k"]) if "k" in fault else ""))
+        if sc["target"] in res["before"]:
+            ctx.nontrivial(json.dumps([sc, fault], sort_keys=True, default=repr))
+        if model is not None:
+            m = model[idx]
+            if m.get("outcome") != res["outcome"] or model_fs(m) != res["real_fs"]:
+                dis += 1
+                if dis <= 3:
+                    ctx.tie_break("correspondence E7 (saveFsspec vs ArgumentParser.save on a memory:// target) disagrees",
+                                  json.dumps({"scenario": sc, "fault": fault, "real": {"outcome": res["outcome"], "exc": res["exc"], "fs": res["real_fs"]},
+                                              "model": {"outcome": m.get("outcome"), "fs": model_fs(m)}}, ensure_ascii=True, default=repr)[:1900])
+        for fid, desc in judge_fsspec(res, sc, fault):
+            if fid is not None and ctx.is_open(fid):
+                ctx.known(fid, desc)
+            else:
+                ctx.violation("save: " + desc, {"kind": "oracle", "origin": origin, "scenario": sc, "fault": fault, "what": desc,
+                                               "before": {k: v.decode("utf-8", "replace") for k, v in res["before"].items()},
+                                               "after": {k: v.decode("utf-8", "replace") for k, v in res["after"].items()}, "exc": res["exc"]})
+    return dis
+
 # ---------------------------------------------------------------- the check
 def model_fs(m):
     return sorted([p, c] for p, c in m["fs"])
@@ -867,8 +1232,15 @@ def process(ctx: Ctx, cases, root, origin, readonly=False):
         ctx.hist("overwrite", {None: "default", True: "on", False: "off"}[sc.get("overwrite")])
         ctx.hist("fault", fault["kind"])
         ctx.hist("subfiles", len(mi["subs"]))
+        ctx.hist("subfile_loaded_from", "sub-directory" if any(os.sep in (x.get("file") or "") for x in sc["subs"]) else "input directory")
         ctx.hist("target_spelling", "file://" if sc.get("uri") else "plain")
         ctx.hist("target_kind", "symlink->" + sc["links"][sc["target"]] if sc["target"] in sc.get("links", {}) else "name")
+        if not sc.get("uri"):
+            ctx.hist("path_argument", sc.get("spelling") or "absolute str")
+        ctx.hist("skip_validation", repr(sc.get("skip_validation")))
+        ctx.hist("skip_none", repr(sc.get("skip_none")))
+        sublinks = [k for k in sc.get("links", {}) if k != sc["target"]]
+        ctx.hist("subfile_symlink", "->" + sc["links"][sublinks[0]] if sublinks else "none")
         if res["outcome"] != "ok":
             fa = failing_slot(mi)
             ctx.hist("failure_position", "before-first-write" if not fa else ("after-%d-subfile-writes" % min(fa, 3)))
@@ -888,6 +1260,11 @@ def process(ctx: Ctx, cases, root, origin, readonly=False):
             if m.get("outcome") not in ("ok", "io", None) and m.get("outcome") == res["outcome"] and bool(m.get("early")) != (not failing_slot(mi)):
                 ctx.tie_break("oracle's failure-position classifier disagrees with Jap.Save.failsByFirstOpen",
                               json.dumps({"scenario": sc, "fault": fault, "early": m.get("early"), "failing_slot": failing_slot(mi)}, default=repr)[:1500])
+            # ... and the number of sub-files the oracle lets a failing run leave behind is the model's writtenCount
+            # (theorem C18_failure_exact)
+            if m.get("outcome") not in ("ok", "io", None) and m.get("outcome") == res["outcome"] and m.get("written") != (failing_slot(mi) or 0):
+                ctx.tie_break("oracle's count of sub-files written before the failure disagrees with Jap.Save.writtenCount",
+                              json.dumps({"scenario": sc, "fault": fault, "written": m.get("written"), "failing_slot": failing_slot(mi)}, default=repr)[:1500])
         # --- oracle
         for fid, desc in judge(res, sc, fault):
             if fid is not None and ctx.is_open(fid):
@@ -903,13 +1280,18 @@ def run(ctx: Ctx):
     ctx.rule = ("scenario = parser with 0-3 ActionParser sub-configs (optionally nested, each loaded from its own sub-file or inline), optional dict, "
                 "jsonschema, jsonnet (__orig__) and save_path_content sub-files, values, format, multifile in {omitted,True,False}, overwrite in "
                 "{omitted,False,True}, target (new, existing, missing parent, a directory, parent not writeable, a symbolic link to an existing / not yet existing sibling or into a missing directory; spelled as a plain path or as a file:// URI), pre-existing files of arbitrary content, "
-                "inputs next to or away from the target; for every scenario a failure is injected at EACH step (invalid value at each typed key, "
+                "inputs next to or away from the target; the path argument as absolute str, file:// URI, relative to a working directory elsewhere, ./name in its own directory, "
+                "through dir/../dir, pathlib.Path or a jsonargparse Path(mode='fc') object; skip_validation in {omitted,False,True, deprecated skip_check=True}, skip_none in {omitted,False}; "
+                "a sub-file NAME in the target directory that is a symbolic link (to its own existing/dangling file, to another sub-file's name, to the target's name); "
+                "plus scenarios on an in-process memory:// file system (fsspec branch: existing/new target, overwrite, multifile, format, flags; faults: invalid/unserialisable value, "
+                "probe of Path(mode='sw') failing, save's open failing, write failing); for every scenario a failure is injected at EACH step (invalid value at each typed key, "
                 "unserialisable value at each Any key, Enum at each enum key, k-th open fails, k-th write fails) plus the fault-free run; each "
                 "(scenario, fault) runs the real parser.save in a temp dir and the Lean model; non-trivial = output directory holds >=1 pre-existing "
                 "file and save gets past the format/path checks; distinct by JSON of (scenario, fault)")
     ctx.assumptions = [
         "validation / serialisation outcomes and the dump texts are inputs of the model; the reference obtains them from parser.validate, parser.dump and dump_using_format on a separately loaded copy",
-        "local file system only (plain paths and file:// URIs of local files; no remote fsspec/URL targets); symbolic links only as the main target (to a sibling file, dangling, or into a missing directory), which then stands for the file it resolves to; nobody else writes to the directory during save",
+        "local file system (plain paths and file:// URIs of local files) and the in-process memory:// file system of fsspec (no network back-ends, no http(s) URLs); symbolic links as the main target (to a sibling file, dangling, or into a missing directory) and as a sub-file name (one link, one step: the harness hands the model the resolved destination), the model resolves them; nobody else writes to the directory during save",
+        "branch= is not exercised (it only selects the subcommand validate() looks at: C17's subject); save(**unexpected_kwargs) raising ValueError before anything else is not modelled",
         "FIFO targets are outside the model and not exercised: an existing FIFO passes Path(mode='fc') (fix 5706b13), is not refused by check_overwrite (os.path.isfile) and open(fifo,'w') blocks until a reader appears; a FIFO stores no content; existing non-files in the scenarios are directories",
         "an OS failure in the middle of write() after a successful open (class io) is outside the property; the model and the harness still track it",
         "save_path_content copies go through text mode: sources are UTF-8 text without carriage returns (newline translation is outside the model)",
@@ -920,11 +1302,16 @@ def run(ctx: Ctx):
 
     root = tempfile.mkdtemp(prefix="c18-")
     try:
-        corpus_cases = []
+        corpus_cases, corpus_fs = [], []
+        have_fsspec = fsspec_available()
         for c in corpus_mod.load(ctx.prop):
             for f in c.get("faults", [{"kind": "none"}]):
-                corpus_cases.append((c["scenario"], f))
+                (corpus_fs if c["scenario"].get("fsspec") else corpus_cases).append((c["scenario"], f))
         dis = process(ctx, corpus_cases, root, "corpus")
+        if have_fsspec:
+            dis += process_fsspec(ctx, corpus_fs, "corpus")
+        else:
+            ctx.assumptions.append("fsspec is not installed: save() has no fsspec branch in this environment, the memory:// cases were skipped")
 
         def batch(n_scen, origin):
             cases = []
@@ -944,13 +1331,22 @@ def run(ctx: Ctx):
             return process(ctx, cases, root, origin)
 
         ro_cases = []
-        n_scen = ctx.budget(220, 3000)
+        n_scen = ctx.budget(220, 2600)
         dis += batch(n_scen, "generated")
         if ctx.tie_broken and not any(v["found_input"] for v in ctx.violations):
             # a tie is broken and no failing input yet: search harder
             extra = n_scen * (ctx.search_boost - 1) if not ctx.thorough else n_scen
             dis += batch(extra, "generated-boosted")
             n_scen += extra
+        if have_fsspec:
+            fs_cases = []
+            for _ in range(ctx.budget(25, 400) * (ctx.search_boost if ctx.tie_broken else 1)):
+                fsc = gen_fsspec_scenario(ctx.rng)
+                faults = fsspec_faults(fsc)
+                for f in [faults[0]] + ctx.rng.sample(faults[1:], 3 if not ctx.thorough else len(faults) - 1):
+                    fs_cases.append((fsc, f))
+            dis += process_fsspec(ctx, fs_cases, "generated-fsspec")
+            ctx.extra["fsspec_cases"] = len(fs_cases)
         if os.getuid() == 0:
             dis += process(ctx, ro_cases, root, "generated-readonly", readonly=True)
             ctx.extra["readonly_parent_cases"] = len(ro_cases)
@@ -962,9 +1358,14 @@ def run(ctx: Ctx):
         # --- replay of catalogued findings
         for f in ctx.open_findings():
             w = f["witness"]
-            res = run_case(w["scenario"], w["fault"], root)
             ctx.count()
-            if any(fid == f["id"] for fid, _ in judge(res, w["scenario"], w["fault"])):
+            if w["scenario"].get("fsspec"):
+                if not have_fsspec:
+                    continue
+                verdicts = judge_fsspec(run_fsspec_case(w["scenario"], w["fault"]), w["scenario"], w["fault"])
+            else:
+                verdicts = judge(run_case(w["scenario"], w["fault"], root), w["scenario"], w["fault"])
+            if any(fid == f["id"] for fid, _ in verdicts):
                 ctx.known(f["id"], f["description"])
             else:
                 ctx.stale_findings.append(f["id"])
@@ -986,6 +1387,14 @@ def replay(ctx: Ctx, body):
     if "scenario" not in rp:
         print("nothing to replay:", json.dumps(rp)[:500])
         return 1
+    if rp["scenario"].get("fsspec"):
+        res = run_fsspec_case(rp["scenario"], rp["fault"])
+        verdicts = judge_fsspec(res, rp["scenario"], rp["fault"])
+        print("outcome:", res["outcome"], res["exc"])
+        print("before :", res["before"])
+        print("after  :", res["after"])
+        print("verdicts:", verdicts)
+        return 1 if any(fid is None for fid, _ in verdicts) else 0
     root = tempfile.mkdtemp(prefix="c18-")
     try:
         if rp.get("readonly"):
